@@ -268,4 +268,10 @@ func init() {
 	reg(func(ex *Exec, fn *ssa.Function, args []Value, caller *frame) Value {
 		return ex.constString("vfs-file")
 	}, "(*os.File).Name")
+	// time.After / time.Tick: a channel on which nothing arrives within the
+	// (sequential) run - timeouts never fire before the work they guard
+	reg(func(ex *Exec, fn *ssa.Function, args []Value, caller *frame) Value {
+		ex.nextMap++
+		return &ChanObj{id: ex.nextMap, cap: 1}
+	}, "time.After", "time.Tick")
 }
